@@ -2,6 +2,7 @@ SPECIFICATION Spec
 CONSTANTS
   Chunks = 8
   TriplePermille = 60
+  MaxTried = 1500
 INVARIANTS
   InvShape
   InvDiscriminates
